@@ -214,7 +214,11 @@ func isNilKey(k crypto.PrivateKey) bool {
 }
 
 // mustReject: the property demands an error, no key and no panic.
-func mustReject(t *rapid.T, o outcome, what string) {
+func mustReject(t *rapid.T, o outcome, format string, args ...any) {
+	if o.pan == nil && o.err != nil {
+		return
+	}
+	what := fmt.Sprintf(format, args...)
 	if o.pan != nil {
 		t.Fatalf("%s: PANIC %v", what, o.pan)
 	}
@@ -264,13 +268,13 @@ func tamperAll(t *rapid.T, ct, ct2 []byte, mask byte, extra []byte, dec func([]b
 	n := 0
 	// truncated to every length (0 .. len-1)
 	for l := 0; l < len(ct); l++ {
-		mustReject(t, dec(append([]byte{}, ct[:l]...)), fmt.Sprintf("%s truncated to %d of %d bytes", what, l, len(ct)))
+		mustReject(t, dec(append([]byte{}, ct[:l]...)), "%s truncated to %d of %d bytes", what, l, len(ct))
 		n++
 	}
 	// truncated at the front
 	for _, l := range []int{1, nonceLen, len(ct) - 1} {
 		if l < len(ct) {
-			mustReject(t, dec(append([]byte{}, ct[l:]...)), fmt.Sprintf("%s with the first %d bytes removed", what, l))
+			mustReject(t, dec(append([]byte{}, ct[l:]...)), "%s with the first %d bytes removed", what, l)
 			n++
 		}
 	}
@@ -278,12 +282,12 @@ func tamperAll(t *rapid.T, ct, ct2 []byte, mask byte, extra []byte, dec func([]b
 	for i := range ct {
 		c := append([]byte{}, ct...)
 		c[i] ^= mask
-		mustReject(t, dec(c), fmt.Sprintf("%s with byte %d ^= %#x", what, i, mask))
+		mustReject(t, dec(c), "%s with byte %d ^= %#x", what, i, mask)
 		n++
 	}
 	// extended
-	mustReject(t, dec(append(append([]byte{}, ct...), extra...)), fmt.Sprintf("%s extended by %x", what, extra))
-	mustReject(t, dec(append(append([]byte{}, extra...), ct...)), fmt.Sprintf("%s prefixed by %x", what, extra))
+	mustReject(t, dec(append(append([]byte{}, ct...), extra...)), "%s extended by %x", what, extra)
+	mustReject(t, dec(append(append([]byte{}, extra...), ct...)), "%s prefixed by %x", what, extra)
 	mustReject(t, dec(append(append([]byte{}, ct...), ct...)), what+" doubled")
 	n += 3
 	// nonce swapped between two encryptions of the same key under the same password
@@ -369,15 +373,15 @@ func TestC37Blob(t *testing.T) {
 		// other password => error
 		others := otherPasswords(t, pw.b)
 		for _, op := range others {
-			mustReject(t, decrypt(ct, op), fmt.Sprintf("Decrypt with password %q instead of %q", op, pw.b))
-			mustReject(t, decryptKey(ct, op, scheme), fmt.Sprintf("DecryptPrivateKey with password %q instead of %q", op, pw.b))
+			mustReject(t, decrypt(ct, op), "Decrypt with password %q instead of %q", op, pw.b)
+			mustReject(t, decryptKey(ct, op, scheme), "DecryptPrivateKey with password %q instead of %q", op, pw.b)
 		}
 		// and the converse: encrypted under the other password, opened with ours
 		oct, err := keystore.EncryptPrivateKey(priv, others[0])
 		if err != nil {
 			t.Fatalf("EncryptPrivateKey: %v", err)
 		}
-		mustReject(t, decryptKey(oct, pw.b, scheme), fmt.Sprintf("DecryptPrivateKey with password %q of a blob made with %q", pw.b, others[0]))
+		mustReject(t, decryptKey(oct, pw.b, scheme), "DecryptPrivateKey with password %q of a blob made with %q", pw.b, others[0])
 
 		labels := []string{"scheme:" + scheme, "pw:" + pw.class, fmt.Sprintf("blob-len:%d", len(ct))}
 		if mask&(mask-1) == 0 {
@@ -417,7 +421,7 @@ func scratch(t *testing.T) string {
 }
 
 const fileRule = "one case = one key + password written with EncryptAndWriteToFile and read back with ReadFromFileAndDecrypt (same password => same key of the same scheme); " +
-	"then the Ciphertext field of the JSON file is truncated to every length, has a generated byte modified, is extended, is replaced by a second encryption with swapped nonce, " +
+	"then the Ciphertext field of the JSON file is truncated (to 0, 1, the lengths around the nonce and tag boundaries, len-1 and 4 generated lengths), set to null, has 4 generated bytes modified, is extended, is replaced by a second encryption with swapped nonce, " +
 	"and the file is read with other passwords (all => error, no key, no panic); the file itself cut at a generated length => error or (only when just trailing white space was cut) the same key. " +
 	"non-trivial = positive round trip through the file succeeded and >= 1 mutated file was judged"
 
@@ -475,7 +479,7 @@ func TestC37File(t *testing.T) {
 		// other passwords on the untouched file
 		others := otherPasswords(t, pw.b)
 		for _, op := range others {
-			mustReject(t, readFile(path, op), fmt.Sprintf("ReadFromFileAndDecrypt with password %q instead of %q", op, pw.b))
+			mustReject(t, readFile(path, op), "ReadFromFileAndDecrypt with password %q instead of %q", op, pw.b)
 		}
 
 		// mutated Ciphertext field, rewritten as JSON
@@ -497,8 +501,17 @@ func TestC37File(t *testing.T) {
 			return readFile(path, pw.b)
 		}
 		n := 0
-		for l := 0; l < len(ct); l++ {
-			mustReject(t, viaFile(append([]byte{}, ct[:l]...)), fmt.Sprintf("file with Ciphertext truncated to %d of %d bytes", l, len(ct)))
+		// (truncation to EVERY length is judged on the blob in TestC37Blob; through the
+		// file only the lengths around the nonce and tag boundaries plus generated ones)
+		lens := []int{0, 1, nonceLen - 1, nonceLen, nonceLen + 1, nonceLen + 15, nonceLen + 16, nonceLen + 17, len(ct) - 16, len(ct) - 1}
+		for k := 0; k < 4; k++ {
+			lens = append(lens, rapid.IntRange(0, len(ct)-1).Draw(t, "truncTo"))
+		}
+		for _, l := range lens {
+			if l < 0 || l >= len(ct) {
+				continue
+			}
+			mustReject(t, viaFile(append([]byte{}, ct[:l]...)), "file with Ciphertext truncated to %d of %d bytes", l, len(ct))
 			n++
 		}
 		// Ciphertext null / absent
@@ -508,10 +521,10 @@ func TestC37File(t *testing.T) {
 			i := rapid.IntRange(0, len(ct)-1).Draw(t, "modAt")
 			c := append([]byte{}, ct...)
 			c[i] ^= mask
-			mustReject(t, viaFile(c), fmt.Sprintf("file with Ciphertext byte %d ^= %#x", i, mask))
+			mustReject(t, viaFile(c), "file with Ciphertext byte %d ^= %#x", i, mask)
 			n++
 		}
-		mustReject(t, viaFile(append(append([]byte{}, ct...), extra...)), fmt.Sprintf("file with Ciphertext extended by %x", extra))
+		mustReject(t, viaFile(append(append([]byte{}, ct...), extra...)), "file with Ciphertext extended by %x", extra)
 		mustReject(t, viaFile(append(append([]byte{}, ct2[:nonceLen]...), ct[nonceLen:]...)), "file with the nonce of another encryption")
 		n += 2
 		// sanity: the harness's rewrite is itself faithful (unmodified blob through viaFile opens)
@@ -526,7 +539,7 @@ func TestC37File(t *testing.T) {
 			if err := os.WriteFile(path, raw[:c], 0o600); err != nil {
 				t.Fatal(err)
 			}
-			mustReject(t, readFile(path, pw.b), fmt.Sprintf("file cut to %d of %d bytes", c, len(raw)))
+			mustReject(t, readFile(path, pw.b), "file cut to %d of %d bytes", c, len(raw))
 			n++
 		}
 		if trimmed < len(raw) { // only trailing white space removed: still the same stored ciphertext
